@@ -102,6 +102,10 @@ def replay_file(path, repo):
                 from pyvc import tables
                 full = tables.check(repo=repo)
                 res = dict(open={k: v for k, v in full["open"].items() if k == ob}) if ob in full["open"] else dict(open={ob: dict(text="holds on this tree")})
+            elif ob.startswith("C11/add_fields"):
+                from pyvc import importcheck
+                full = importcheck.check_layout_pass(repo=repo)
+                res = dict(open={k: v for k, v in full["open"].items() if k == ob}) if ob in full["open"] else dict(open={ob: dict(text="holds on this tree")})
             elif ob.startswith("C12/handle_reserve"):
                 from pyvc import importcheck
                 full = importcheck.check_reserve(repo=repo)
